@@ -239,4 +239,26 @@ def lat_probe(rng):
     return 'lat_probe', prog, ['src', 'probe'], inputs
 
 
+def agg_repeated(rng):
+    """an aggregated variable repeated inside the aggregated clause is an equality constraint on those columns (finding F26);
+    used by C04"""
+    prog = Program([Rel('bar', [T.I32, T.I32]), Rel('t3', [T.I32, T.I32, T.I32]), Rel('key', [T.I32]),
+                    Rel('s', [T.I32]), Rel('mx', [T.I32, T.I32]), Rel('mn', [T.I32]), Rel('cnt', [T.I32, T.I32])],
+                   [Rule([Head('s', [V('t')])], [Agg('t', 'sum', ['y'], 'bar', [AVar('y'), AVar('y')])]),
+                    Rule([Head('mx', [V('k'), V('m')])], [Clause('key', [AVar('k')]), Agg('m', 'max', ['y'], 't3', [AVar('k'), AVar('y'), AVar('y')])]),
+                    Rule([Head('mn', [V('m')])], [Agg('m', 'min', ['y'], 't3', [AVar('y'), AWild(), AVar('y')])]),
+                    Rule([Head('cnt', [V('k'), V('n')])], [Clause('key', [AVar('k')]),
+                                                          Agg('n', 'count', [], 't3', [AVar('k'), AVar('k'), AWild()], None, '(n as i32)', int)])])
+
+    def inputs(rng):
+        d = rng.choice([3, 4, 6])
+        rows = [('bar', (rng.randrange(d), rng.randrange(d))) for _ in range(rng.randrange(0, 3 * d))]
+        rows += [('t3', (rng.randrange(d), rng.randrange(d), rng.randrange(d))) for _ in range(rng.randrange(0, 5 * d))]
+        rows += [('key', (k,)) for k in rng.sample(range(d), rng.randrange(1, d + 1))]
+        rows = list(dict.fromkeys(rows))
+        rng.shuffle(rows)
+        return rows
+    return 'agg_repeated', prog, ['bar', 't3', 'key'], inputs
+
+
 ALL = [tc, sp_count, funnel_rel, funnel_lat, neg_agg_chain, lat_contention, noindex_cycle, lat_many_keys, set_reach]
